@@ -24,7 +24,8 @@ PIFF = "ua2394f525a9b4f14a2446c427c648df4"
 CONTAINERS = ["moov", "trak", "traf", "moof", "minf", "mvex", "mdia", "schi", "sinf", "stbl", "udta"]
 LEAF_KINDS = {"ftyp": "ftyp", "styp": "ftyp", "mfhd": "mfhd", "tfhd": "tfhd", "tfdt": "tfdt",
               "trun": "trun", "saiz": "saiz", "saio": "saio", "senc": "senc", "tenc": "tenc",
-              "pssh": "pssh", "mehd": "mehd", "trex": "trex", "sidx": "sidx", "emsg": "emsg"}
+              "pssh": "pssh", "mehd": "mehd", "trex": "trex", "sidx": "sidx", "emsg": "emsg",
+              "dec3": "dec3"}
 UNKNOWN_CODES = ["free", "skip", "mdat", "abcd", "wide", "zzzz", "Xy_1"]
 
 
@@ -100,6 +101,9 @@ def payload_tokens(kind: str, f: dict) -> list[str]:
         return ["emsg", v, fl, hx(f["scheme_id_uri"]), hx(f["value"]), str(f["timescale"]),
                 str(f["presentation_time_delta"]), str(f["presentation_time"]), str(f["event_duration"]),
                 str(f["event_id"]), hx(f["data"])]
+    if kind == "dec3":
+        return ["dec3", str(f["data_rate"]), lst(f["substreams"], lambda u: ":".join(str(x) for x in u)),
+                "-" if f["ext"] is None else f"{f['ext'][0]}:{f['ext'][1]}"]
     if kind == "opaque":
         return ["opaque", hx(f["data"])]
     raise ValueError(kind)
@@ -273,6 +277,14 @@ def gen_fields(kind: str, rng, big: bool = False, ctx_iv: int = 8) -> dict:
                     timescale=bnd(rng, 32), presentation_time_delta=bnd(rng, 32) if v == 0 else 0,
                     presentation_time=bnd(rng, 64) if v == 1 else 0, event_duration=bnd(rng, 32),
                     event_id=bnd(rng, 32), data=rbytes(rng, rng.choice([0, 0, 1, 9, 30])))
+    if kind == "dec3":
+        subs = []
+        for _ in range(rng.choice([1, 1, 2, 3, 8])):
+            dep = rng.choice([0, 0, 1, 15, bnd(rng, 4)])
+            subs.append((bnd(rng, 2), bnd(rng, 5), bnd(rng, 5), bnd(rng, 3), bnd(rng, 1), dep,
+                         bnd(rng, 9) if dep else 0))
+        return dict(data_rate=bnd(rng, 13), substreams=subs,
+                    ext=(bnd(rng, 1), bnd(rng, 8)) if rng.random() < .5 else None)
     if kind == "opaque":
         return dict(data=rbytes(rng, rng.choice([0, 0, 1, 3, 8, 9, 40])))
     raise ValueError(kind)
@@ -328,7 +340,8 @@ def gen_unknown(rng):
     return leaf(rng.choice(UNKNOWN_CODES), "opaque", gen_fields("opaque", rng), maybe_large(rng))
 
 
-TOP_LEAVES = ["ftyp", "styp", "mfhd", "tfdt", "mehd", "trex", "tenc", "pssh", "sidx", "emsg", "saiz", "saio"]
+TOP_LEAVES = ["ftyp", "styp", "mfhd", "tfdt", "mehd", "trex", "tenc", "pssh", "sidx", "emsg", "saiz", "saio",
+              "dec3", "dec3"]
 
 
 def gen_top_leaf(rng, big):
